@@ -29,10 +29,9 @@ Proof.
     - destruct ms as [|m ms]; [cbn; now rewrite app_nil_r|].
       destruct vs as [|v vs]; [cbn; now rewrite app_nil_r|].
       cbn [combine foldM reduce_loop]. unfold body at 1.
-      destruct (negb (r =? 0) && (0 <? tr)) eqn:C.
-      + rewrite py_round_div_pos by lia. cbn [bind].
-        rewrite IH. now rewrite <- app_assoc.
-      + cbn [bind]. rewrite IH. now rewrite <- app_assoc. }
+      (* tolerant of `if c: A else: B` written as `if not c: B else: A` *)
+      destruct (negb (r =? 0) && (0 <? tr)) eqn:C; cbn [negb];
+        rewrite ?py_round_div_pos by lia; cbn [bind]; rewrite IH; now rewrite <- app_assoc. }
   exact (L rs maximums values [] total (sumZ rs)).
 Qed.
 
@@ -40,29 +39,25 @@ Theorem ratio_distribute_gen_eq_hand total ratios minimums :
   ratio_distribute_gen total ratios minimums = ratio_distribute total ratios minimums.
 Proof.
   unfold ratio_distribute_gen, ratio_distribute.
-  assert (L : forall body,
-    body = (fun '(dt, tr, rem) '(r, m) =>
-              do d <- (if 0 <? tr then do t <- py_ceil_div (r * rem) tr; Ok (Z.max m t) else Ok rem);
-              Ok (dt ++ [d], tr - r, rem - d)) ->
-    forall rs ms acc tr rem,
+  match goal with |- context [foldM ?f _ _] => set (body := f) end.
+  assert (L : forall rs ms acc tr rem,
     bind (foldM body (combine rs ms) (acc, tr, rem)) (fun '(d, _, _) => Ok d)
     = Ok (acc ++ distribute_loop rs ms rem tr)).
-  { intros body ->. induction rs as [|r rs IH]; intros ms acc tr rem.
+  { clear. induction rs as [|r rs IH]; intros ms acc tr rem.
     - cbn. now rewrite app_nil_r.
     - destruct ms as [|m ms]; [cbn; now rewrite app_nil_r|].
-      cbn [combine foldM distribute_loop].
-      destruct (0 <? tr) eqn:C.
-      + rewrite py_ceil_div_pos by lia. cbn [bind]. rewrite IH. now rewrite <- app_assoc.
-      + cbn [bind]. rewrite IH. now rewrite <- app_assoc. }
-  destruct minimums as [[|m ms]|]; cbn [nonempty].
-  - destruct (0 <? sumZ ratios) eqn:C; destruct (sumZ ratios <=? 0) eqn:C2; try lia; [|reflexivity].
-    exact (L _ eq_refl ratios [] [] (sumZ ratios) total).
+      cbn [combine foldM distribute_loop]. unfold body at 1.
+      destruct (0 <? tr) eqn:C; cbn [negb];
+        rewrite ?py_ceil_div_pos by lia; cbn [bind]; rewrite IH; now rewrite <- app_assoc. }
+  destruct minimums as [[|m ms]|]; cbn [nonempty negb].
+  - destruct (0 <? sumZ ratios) eqn:C; destruct (sumZ ratios <=? 0) eqn:C2; try lia; cbn [negb]; [|reflexivity].
+    exact (L ratios [] [] (sumZ ratios) total).
   - rewrite mask_eq. generalize (zip_mask ratios (m :: ms)). intro rs.
-    destruct (0 <? sumZ rs) eqn:C; destruct (sumZ rs <=? 0) eqn:C2; try lia; [|reflexivity].
-    exact (L _ eq_refl rs (m :: ms) [] (sumZ rs) total).
-  - destruct (0 <? sumZ ratios) eqn:C; destruct (sumZ ratios <=? 0) eqn:C2; try lia; [|reflexivity].
+    destruct (0 <? sumZ rs) eqn:C; destruct (sumZ rs <=? 0) eqn:C2; try lia; cbn [negb]; [|reflexivity].
+    exact (L rs (m :: ms) [] (sumZ rs) total).
+  - destruct (0 <? sumZ ratios) eqn:C; destruct (sumZ ratios <=? 0) eqn:C2; try lia; cbn [negb]; [|reflexivity].
     rewrite py_mul_list_single_len.
-    exact (L _ eq_refl ratios (repeat 0 (length ratios)) [] (sumZ ratios) total).
+    exact (L ratios (repeat 0 (length ratios)) [] (sumZ ratios) total).
 Qed.
 
 (* Table._collapse_widths: the generated loop carries (widths, total_width, excess_width); the hand
